@@ -346,6 +346,7 @@ func diffFields(want, got COut) string {
 }
 
 func (ci *cacheSeqInst) Key() string { return ci.keyFn(&ci.m) }
+
 var closedInstances int
 
 func (ci *cacheSeqInst) Close() {
